@@ -52,3 +52,15 @@ Definition sys_symbols (sy : sys) : list expr := s_inputs sy ++ map st_sym (s_st
 
 Definition sys_closed (sy : sys) : bool :=
   forallb (fun e => forallb (fun s => existsb (expr_eqb s) (sys_symbols sy)) (symbols_of e)) (all_exprs sy).
+
+(** the systems the model-checking theorems speak about: well-typed ([sys_ok]),
+    closed, with pairwise distinct state symbols that are not inputs *)
+Fixpoint nodup_exprs (l : list expr) : bool :=
+  match l with
+  | [] => true
+  | x :: r => negb (existsb (expr_eqb x) r) && nodup_exprs r
+  end.
+
+Definition sys_wf (sy : sys) : bool :=
+  sys_ok sy && sys_closed sy && nodup_exprs (map st_sym (s_states sy)) &&
+  forallb (fun i => negb (existsb (expr_eqb i) (map st_sym (s_states sy)))) (s_inputs sy).
